@@ -230,7 +230,113 @@ def dfdt(rc: RuleCtx, rule_range: Optional[str], rule_crit: Optional[str], rule_
 # Menger
 # --------------------------------------------------------------------------
 
+def _menger_by_value(rc: RuleCtx, rule_range: Optional[str], rule_crit: Optional[str]) -> bool:
+    """The Menger detector read as a value: the whole function is evaluated with its loop summarised; every exit must be the
+    position of the first maximum of [c] + (one curvature per interior point) + [c].  Handles any loop form the summaries
+    handle (index loops, zips of shifted slices, a sliding window carried in two variables, comprehensions).  False when the
+    function does not evaluate to that shape (the loop-shaped reading is used instead)."""
+    from ..intervals import scanned_positions
+    from ..seqdom import Gen, flatten, var_symbol
+    res = rc.res
+    fi = rc.func("menger.knee")
+    ev = rc.new_eval()
+    ev.summarise_loops = True
+    ev.no_inline.add("menger.menger_curvature")
+    pts = ev.point("points", True)
+    ev.len_map = {"points": sym("n")}
+    n = sym("n")
+    try:
+        val = ev.eval_function(fi, {"points": pts}).value()
+    except (Unsupported, AnalysisError):
+        return False
+    if ev.summary_log:
+        return False
+    main = None
+    shorts = []
+    for g, v in cases_of(val):
+        if not g_sat(g) or not isinstance(v, Rat):
+            if g_sat(g):
+                return False
+            continue
+
+        def _clean(vv):
+            # conditions pushed into a block that the path condition of this exit already guarantees condition nothing
+            out_ = []
+            for it_ in flatten(vv.items):
+                if isinstance(it_, Gen) and it_.ranged:
+                    nonempty = canon_sign(it_.hi - it_.lo - C(1), OPS[">="])
+                    it_ = Gen(it_.depth, it_.lo, it_.hi, it_.step,
+                              [((TRUE if (g_implies(g, g_) or g_implies(nonempty, g_)) else g_), v_, sp_) for g_, v_, sp_ in it_.parts], ranged=True)
+                out_.append(it_)
+            return Vec(out_, "list")
+
+        def _len(x_):
+            xa_ = single_atom(x_)
+            vv = ev.vec_registry.get(xa_.skey) if (xa_ is not None and xa_.name == "vec") else None
+            return ev.length_of(_clean(vv)) if vv is not None else ev.length_of(x_)
+        sp = scanned_positions(v, _len)
+        if sp is None or sp[4] != "argmax":
+            return False
+        base_, p_lo, p_hi, maps_back, _nm, rev_ = sp
+        ba = single_atom(base_)
+        V = ev.vec_registry.get(ba.skey) if (ba is not None and ba.name == "vec") else None
+        if V is None:
+            return False
+        items = list(_clean(V).items)
+        if all(isinstance(i_, Rat) and i_.is_const() is not None for i_ in items):
+            shorts.append((g, v, items, sp))
+            continue
+        if main is not None:
+            return False
+        main = (g, v, items, sp)
+    if main is None:
+        return False
+    g, v, items, (base_, p_lo, p_hi, maps_back, _nm, rev_) = main
+    if not (len(items) == 3 and isinstance(items[1], Gen) and isinstance(items[0], Rat) and isinstance(items[2], Rat)):
+        return False
+    blk = items[1]
+    pad_ok = items[0].is_const() is not None and items[0].equals(items[2])
+    one_app = blk.ranged and len(blk.parts) == 1 and blk.parts[0][0].kind == "true" and not blk.parts[0][2] and blk.step is not None and blk.step.is_const() == 1
+    range_ok = one_app and blk.lo.is_zero() and blk.hi.equals(n - C(2))
+    whole = p_lo.is_zero() and p_hi.equals(n - C(1))
+    inner = p_lo.is_const() is not None and 0 <= p_lo.is_const() <= 1 and p_hi.equals(n - C(2))
+    ret_ok = maps_back and (inner or (whole and not rev_))
+    # short inputs handled apart: a vector of equal constants scanned forwards gives position 0
+    short_ok = all(len({i_.is_const() for i_ in its}) == 1 and not sp_[5] and sp_[3] and sp_[1].is_zero() for _g, _v, its, sp_ in shorts)
+    if rule_range:
+        if pad_ok and range_ok and ret_ok and short_ok:
+            res.ok(rule_range, "menger.knee", "argmax over [pad] + n-2 interior values + [same pad]: the first maximum is never the last index => index in [0, n-2] (by value)")
+        elif maps_back and whole and rev_ and pad_ok:
+            res.violation(rule_range, fi.module, fi.name, fi.node, "the Menger detector can return the last index: the scan runs over the reversed vector, so of several equal maxima the one "
+                          "at the highest position is returned: with every interior curvature equal to the pad (a straight segment) that is the last index n-1", _short(v, 160),
+                          "the first maximum of [0] + interior + [0] (never the last position)", construct="menger range")
+        else:
+            res.violation(rule_range, fi.module, fi.name, fi.node,
+                          "the Menger detector can return the last index: the curvature vector is not [c] + (one value per interior point) + [c] followed by argmax",
+                          f"pad ok={pad_ok}, range ok={range_ok} ({_short(blk.lo, 20)}..{_short(blk.hi, 20)}), one append={one_app}, argmax={ret_ok}, short inputs ok={short_ok}",
+                          "curvature = [0] + [k(i) for i in 1..n-2] + [0]; np.argmax(curvature)", construct="menger range")
+    if rule_crit:
+        ok = pad_ok and items[0].is_zero() and one_app and range_ok and ret_ok
+        triple_ok = False
+        F = blk.parts[0][1] if one_app else None
+        if isinstance(F, Rat):
+            a = single_atom(F)
+            if a is not None and a.name == "call:menger.menger_curvature" and len(a.args) == 3:
+                m = var_symbol(blk.depth) + C(1)          # block position j is the interior point j + 1
+                want = [ev.to_rat(Vec([_at(pts.items[0], m + C(off)), _at(pts.items[1], m + C(off))], "point")) for off in (0, -1, 1)]
+                triple_ok = sorted(x.key for x in a.args) == sorted(w.key for w in want)
+        if ok and triple_ok:
+            res.ok(rule_crit, "menger.knee", "maximises menger_curvature of the consecutive triples {i-1, i, i+1}, i = 1..n-2, zero padding at both ends (by value)")
+        else:
+            res.violation(rule_crit, fi.module, fi.name, fi.node, "the Menger detector does not maximise the Menger curvature of the consecutive triples {i-1, i, i+1}",
+                          _short(F, 200) if F is not None else "no single value per interior point", "menger_curvature(points[i-1], points[i], points[i+1]) for i in 1..n-2",
+                          construct="menger criterion")
+    return True
+
+
 def menger(rc: RuleCtx, rule_range: Optional[str], rule_crit: Optional[str]):
+    if _menger_by_value(rc, rule_range, rule_crit):
+        return
     res = rc.res
     fi = rc.func("menger.knee")
     ev = rc.new_eval()
